@@ -15,7 +15,8 @@ meta['verification']={'confirmed_in_scratch_copy':ok,'steps':res,'caught_by':cau
   'how':'tools/run_mutant.sh: scratch copy of /repo HEAD outside /repo and /verif; patch applied; go build; repository suite vs BASELINE; demo with and without the patch; ./check <id> quick with VERIF_REPO pointing at the copy; copy removed'}
 if ok:
     dst=os.path.join('/verif/seeded',name); os.makedirs(dst,exist_ok=True)
-    for f in os.listdir(src): shutil.copy(os.path.join(src,f),dst)
+    if os.path.realpath(src)!=os.path.realpath(dst):
+        for f in os.listdir(src): shutil.copy(os.path.join(src,f),dst)
     json.dump(meta,open(os.path.join(dst,'meta.json'),'w'),indent=1)
     print('stored',dst,'caught_by',caught,'missed_by',missed)
 else:
